@@ -279,9 +279,71 @@ def struct_cache(ctx):
     ctx.cell("two-cstructs-same-names")
 
 
+def load_histories(ctx, n):
+    """Several load() calls on one cstruct object: what a load defines depends on its own text and options only, not
+    on the options of an earlier load (align / compiled given there and omitted here) nor on equally named inline
+    types an earlier load defined."""
+    from ..engine import type_sig
+
+    for i in range(n):
+        rng = ctx.rng("loads", i)
+        a = engine.make_case(rng, name_prefix="A_", dyn_unions=False)
+        b = engine.make_case(rng, name_prefix="B_", dyn_unions=False)
+        for case, nm in ((a, "TA"), (b, "TB")):
+            case["top"]["name"] = nm
+            case["text"] = gen.render_case(case)
+        k = rng.randint(1, 3)
+        text_a = a["text"] + f"struct XA {{ struct item {{ uint8 a; }} v[{k}]; uint8 t; }};\n"
+        text_b = b["text"] + f"struct XB {{ struct item {{ uint16 a; uint16 b; }} v[{k}]; uint8 t; }};\n"
+        opts_a = rng.choice([{}, {"align": True}, {"compiled": False}, {"align": True, "compiled": False}])
+        endian = rng.choice("<>")
+        det = {"first_load": text_a, "first_options": opts_a, "second_load": text_b, "endian": endian,
+               "workload": "load-histories"}
+        ctx.evaluation(("loads", text_a, text_b, repr(opts_a), endian))
+        ctx.cell("load-histories", "load-histories:" + ("+".join(sorted(opts_a)) or "plain"))
+        try:
+            ref = lib.cstruct(endian=endian)
+            ref.load(text_b)
+        except Exception:  # noqa: BLE001
+            ctx.event("load_rejected")
+            continue
+        try:
+            cs = lib.cstruct(endian=endian)
+            cs.load(text_a, **opts_a)
+            cs.load(text_b)          # no options: the defaults, not what the first load was given
+        except Exception as e:  # noqa: BLE001
+            ctx.violation("history", f"second-load-fails-after-first:{type(e).__name__}", dict(det, error=lib.exc_sig(e)))
+            continue
+        data = gen.arbitrary_bytes(rng, 160, 2)
+        for name in ("TB", "XB"):
+            Tc, Tr = getattr(cs, name), getattr(ref, name)
+            if type_sig(Tc) != type_sig(Tr) or bool(Tc.__compiled__) != bool(Tr.__compiled__):
+                ctx.violation("history", "type-depends-on-an-earlier-load", dict(det, type=name,
+                              got=repr(type_sig(Tc))[:300], want=repr(type_sig(Tr))[:300],
+                              compiled=[bool(Tc.__compiled__), bool(Tr.__compiled__)]))
+                break
+            ra, rb = engine.outcome(Tc, data), engine.outcome(Tr, data)
+
+            def val(r):
+                # (the names of anonymous types carry a per-object counter: compare values, not reprs)
+                if r[0] != "ok":
+                    return r[0]
+                if name == "TB":
+                    return (norm_or_err(r[1], b["top"]), r[2])
+                return ([(int(x.a), int(x.b)) for x in r[1].v], int(r[1].t), r[2])
+
+            if val(ra) != val(rb):
+                ctx.violation("history", "parse-depends-on-an-earlier-load", dict(det, type=name, got=repr(val(ra))[:300],
+                                                                                  want=repr(val(rb))[:300]))
+                break
+        else:
+            ctx.event("load_histories_checked")
+
+
 def run(ctx):
     if ctx.shard == 0:
         struct_cache(ctx)
+    load_histories(ctx, 6 if not ctx.thorough else 120)
     for i in range(N_HIST[ctx.tier]):
         if ctx.out_of_time():
             break
@@ -303,6 +365,9 @@ def replay(ctx, detail):
     print("definition:\n" + detail.get("text", ""))
     print({k: v for k, v in detail.items() if k not in ("ast", "text")})
     struct_cache(ctx)
+    if detail.get("workload") == "load-histories":
+        load_histories(ctx, 120)
+        return
     # histories are regenerated from the seed: rerun the whole shard-0 workload
     for i in range(N_HIST["quick"]):
         rng = ctx.rng("world", i)
